@@ -145,7 +145,7 @@ def r19_2_callers(ctx):
     mc = ctx.model.find_func("InnerTxnBuilder.MethodCall", "pyteal.ast.itxn")
     ctx.analysed(mc.fq)
     calls = q.calls_named(mc.node, "type_spec_is_assignable_to", into_nested=False)
-    ctx.check(len(calls) >= 2 and all(q.rtext(mc.node, x.args[0]) in ("arg.type_spec()", "args[idx].type_spec()", "abi.type_spec_from_algosdk(arg[TxnField.type_enum].name)", "abi.type_spec_from_algosdk(txntype)") and u(x.args[1]) == "method_arg_ts" for x in calls), "R19.2", "MethodCall:check-direction", f"every ABI / transaction argument path of MethodCall must test type_spec_is_assignable_to(<argument's type>, <expected type>); found {[u(x) for x in calls]}", mc.where, fact={"calls": [u(x) for x in calls]})
+    ctx.check(len(calls) >= 2 and all(q.rtext(mc.node, x.args[0]) in ("args[idx].type_spec()", "abi.type_spec_from_algosdk(args[idx][TxnField.type_enum].name)") and u(x.args[1]) == "method_arg_ts" for x in calls), "R19.2", "MethodCall:check-direction", f"every ABI / transaction argument path of MethodCall must test type_spec_is_assignable_to(<argument's type>, <expected type>); found {[u(x) for x in calls]}", mc.where, fact={"calls": [u(x) for x in calls]})
     for x in calls:
         rs = [r for r in q.raises_of(mc.node) if (u(x), False) in q.nguards(r)]
         ctx.check(len(rs) == 1 and q.raise_type(rs[0]) in ("TealTypeError", "TealInputError"), "R19.2", f"MethodCall:refuses[{u(x.args[0])}]", "a failed assignability test must raise a PyTeal error", f"{mc.module.rel}:{x.lineno}", fact={})
